@@ -21,7 +21,33 @@ Definition digest_len_ok (F : facts) : bool :=
 Definition facts_ok (F : facts) : bool :=
   bound_is (f_uint16 F) 0 65535 && bound_is (f_uint32 F) 0 4294967295 && bound_is (f_boolean F) 0 1
   && f_bytes_isinstance F && f_str_decodes_bytes F && digest_len_ok F
-  && f_sa_guard_none F && f_sa_convert_before_store F && f_tl_convert F && f_dt_final_utc F.
+  && f_sa_guard_none F && f_sa_convert_before_store F && f_tl_convert F && f_dt_final_utc F
+  && f_uint_integral F && negb (f_uint_keeps_arg F) && f_bool_integral F && negb (f_digest_else_empty F).
+
+(* the facts of the code before the three repairs (used to show that each repaired test is load-bearing) *)
+Definition without_uint_fix (F : facts) : facts :=
+  {| f_uint16 := f_uint16 F; f_uint32 := f_uint32 F; f_boolean := f_boolean F; f_uint_integral := false;
+     f_bool_integral := f_bool_integral F; f_uint_keeps_arg := true; f_bytes_isinstance := f_bytes_isinstance F;
+     f_str_decodes_bytes := f_str_decodes_bytes F; f_digest_len := f_digest_len F;
+     f_digest_else_empty := f_digest_else_empty F; f_sa_guard_none := f_sa_guard_none F;
+     f_sa_convert_before_store := f_sa_convert_before_store F; f_tl_convert := f_tl_convert F;
+     f_tl_falsy_empty := f_tl_falsy_empty F; f_dt_arg_utc := f_dt_arg_utc F; f_dt_final_utc := f_dt_final_utc F |}.
+Definition without_boolean_fix (F : facts) : facts :=
+  {| f_uint16 := f_uint16 F; f_uint32 := f_uint32 F; f_boolean := f_boolean F; f_uint_integral := f_uint_integral F;
+     f_bool_integral := false; f_uint_keeps_arg := f_uint_keeps_arg F; f_bytes_isinstance := f_bytes_isinstance F;
+     f_str_decodes_bytes := f_str_decodes_bytes F; f_digest_len := f_digest_len F;
+     f_digest_else_empty := f_digest_else_empty F; f_sa_guard_none := f_sa_guard_none F;
+     f_sa_convert_before_store := f_sa_convert_before_store F; f_tl_convert := f_tl_convert F;
+     f_tl_falsy_empty := f_tl_falsy_empty F; f_dt_arg_utc := f_dt_arg_utc F; f_dt_final_utc := f_dt_final_utc F |}.
+Definition without_digest_fix (F : facts) : facts :=
+  {| f_uint16 := f_uint16 F; f_uint32 := f_uint32 F; f_boolean := f_boolean F; f_uint_integral := f_uint_integral F;
+     f_bool_integral := f_bool_integral F; f_uint_keeps_arg := f_uint_keeps_arg F; f_bytes_isinstance := f_bytes_isinstance F;
+     f_str_decodes_bytes := f_str_decodes_bytes F; f_digest_len := f_digest_len F;
+     f_digest_else_empty := true; f_sa_guard_none := f_sa_guard_none F;
+     f_sa_convert_before_store := f_sa_convert_before_store F; f_tl_convert := f_tl_convert F;
+     f_tl_falsy_empty := f_tl_falsy_empty F; f_dt_arg_utc := f_dt_arg_utc F; f_dt_final_utc := f_dt_final_utc F |}.
+
+Definition is_container (v : pv) : bool := match v with PList _ | PTuple _ | PDict _ => true | _ => false end.
 
 (* what the proofs need from the runtime: ip_address answers an address of a known family in range, and
    iterating text / bytes yields characters / integers *)
@@ -56,19 +82,6 @@ Definition op_ok (ts : list ftype) (o : op) : bool :=
   | OSet i v => match nth_error ts i with Some t => arg_ok t v | None => true end
   | OConstruct args => args_ok ts args
   | OReplace kvs => forallb (fun kv => match nth_error ts (fst kv) with Some t => arg_ok t (snd kv) | None => true end) kvs
-  end.
-
-(* the part of the rejection claim that the known findings break *)
-Fixpoint reject_hyp (t : ftype) (v : pv) {struct v} : bool :=
-  match v with
-  | PTyped _ _ => true
-  | _ =>
-    match t with
-    | TBoolean => negb (in_unit_float v)
-    | TDigest => is_container v
-    | TList e => match v with PList l | PTuple l => forallb (reject_hyp e) l | _ => true end
-    | _ => true
-    end
   end.
 
 (* ------------------------------------------------------------------------------------------ *)
@@ -167,10 +180,13 @@ Lemma facts_ok_inv F : facts_ok F = true ->
   bound_is (f_uint16 F) 0 65535 = true /\ bound_is (f_uint32 F) 0 4294967295 = true /\
   bound_is (f_boolean F) 0 1 = true /\ f_bytes_isinstance F = true /\ f_str_decodes_bytes F = true /\
   digest_len_ok F = true /\ f_sa_guard_none F = true /\ f_sa_convert_before_store F = true /\
-  f_tl_convert F = true /\ f_dt_final_utc F = true.
+  f_tl_convert F = true /\ f_dt_final_utc F = true /\ f_uint_integral F = true /\ f_uint_keeps_arg F = false /\
+  f_bool_integral F = true /\ f_digest_else_empty F = false.
 Proof.
   unfold facts_ok. intros H.
-  repeat (apply andb_prop in H; destruct H as [H ?]). repeat split; assumption.
+  repeat (apply andb_prop in H; destruct H as [H ?]).
+  repeat match goal with X : negb _ = true |- _ => apply negb_true_iff in X end.
+  repeat split; assumption.
 Qed.
 
 Lemma unbe_lt_Z (b : bytes) (k : nat) : List.length b = k -> Z.of_N (unbe b) < 256 ^ Z.of_nat k.
@@ -206,54 +222,57 @@ Lemma F_none : f_sa_guard_none F = true.        Proof. apply (facts_ok_inv F HF)
 Lemma F_store : f_sa_convert_before_store F = true. Proof. apply (facts_ok_inv F HF). Qed.
 Lemma F_tl : f_tl_convert F = true.             Proof. apply (facts_ok_inv F HF). Qed.
 Lemma F_dt : f_dt_final_utc F = true.           Proof. apply (facts_ok_inv F HF). Qed.
+Lemma F_uint_int : f_uint_integral F = true.    Proof. apply (facts_ok_inv F HF). Qed.
+Lemma F_keeps : f_uint_keeps_arg F = false.     Proof. apply (facts_ok_inv F HF). Qed.
+Lemma F_bool_int : f_bool_integral F = true.    Proof. apply (facts_ok_inv F HF). Qed.
+Lemma F_digest_else : f_digest_else_empty F = false. Proof. apply (facts_ok_inv F HF). Qed.
 
 (* ---- unsigned integers and booleans ---- *)
 
 Lemma co_uint_int b max z : bound_is b 0 max = true ->
   co_uint F E b (PInt z) = if (0 <=? z) && (z <=? max) then Ok (SUInt z (UInt z)) else Raise EValueError.
 Proof.
-  intros Hb. unfold co_uint. cbn. rewrite (out_of_range_Z _ _ _ z Hb).
+  intros Hb. unfold co_uint. cbn. rewrite (out_of_range_Z _ _ _ z Hb). rewrite andb_false_r.
   unfold uval_of. destruct ((0 <=? z) && (z <=? max)); cbn; [|reflexivity].
   destruct (f_uint_keeps_arg F); reflexivity.
 Qed.
 
-Lemma co_uint_sound b max v s : bound_is b 0 max = true -> is_float v = false ->
-  co_uint F E b v = Ok s -> exists obj u, s = SUInt obj u /\ uint_ok max obj u = true.
+Lemma co_uint_sound b max v s : bound_is b 0 max = true ->
+  co_uint F E b v = Ok s -> exists obj, s = SUInt obj (UInt obj) /\ 0 <= obj <= max.
 Proof.
-  intros Hb Hfl H. unfold co_uint in H.
-  destruct v; cbn in Hfl; try discriminate; cbn in H; try discriminate;
-    try (destruct (e_int E _); cbn in H; discriminate).
-  - (* bool *)
-    rewrite (out_of_range_Z _ _ _ _ Hb) in H.
+  intros Hb H. unfold co_uint, uval_of in H. rewrite F_keeps, F_uint_int in H.
+  destruct v; cbn in H; try discriminate; try (destruct (e_int E _); cbn in H; discriminate).
+  - rewrite (out_of_range_Z _ _ _ _ Hb) in H.
     destruct ((0 <=? Z_of_bool b0) && (Z_of_bool b0 <=? max)) eqn:R; cbn in H; [|discriminate].
-    inversion H; subst. eexists _, _. split; [reflexivity|].
-    unfold uval_of. destruct (f_uint_keeps_arg F); cbn; lia.
+    inversion H; subst. eexists. split; [reflexivity|lia].
   - rewrite (out_of_range_Z _ _ _ _ Hb) in H.
     destruct ((0 <=? z) && (z <=? max)) eqn:R; cbn in H; [|discriminate].
-    inversion H; subst. eexists _, _. split; [reflexivity|].
-    unfold uval_of. destruct (f_uint_keeps_arg F); cbn; lia.
+    inversion H; subst. eexists. split; [reflexivity|lia].
+  - destruct c as [fl i| |neg]; cbn in H; try discriminate.
+    rewrite (bound_is_inv _ _ _ Hb) in H. cbn in H.
+    destruct ((fl <? 0) || ((max <? fl) || (fl =? max) && negb i)) eqn:R; [discriminate|].
+    destruct i; cbn in H; [|discriminate]. inversion H; subst. eexists. split; [reflexivity|].
+    unfold trunc. rewrite andb_false_r. cbn in R. lia.
 Qed.
 
-Lemma co_boolean_sound v s : in_unit_float v = false -> co_boolean F E v = Ok s ->
-  exists obj b, s = SBool obj b /\ obj = Z_of_bool b.
+Lemma co_boolean_sound v s : co_boolean F E v = Ok s -> exists obj b, s = SBool obj b /\ obj = Z_of_bool b.
 Proof.
-  intros Hu H. unfold co_boolean in H.
+  intros H. unfold co_boolean in H. rewrite F_bool_int in H.
   destruct v; cbn in H; try discriminate; try (destruct (e_int E _); cbn in H; discriminate).
-  - rewrite (bound_is_inv _ _ _ HB) in H. cbn in H.
+  - rewrite (bound_is_inv _ _ _ HB) in H. cbn in H. rewrite orb_false_r in H.
     destruct ((Z_of_bool b <? 0) || (1 <? Z_of_bool b)) eqn:R; [discriminate|].
     inversion H; subst. eexists _, _. split; [reflexivity|]. destruct b; reflexivity.
-  - rewrite (bound_is_inv _ _ _ HB) in H. cbn in H.
+  - rewrite (bound_is_inv _ _ _ HB) in H. cbn in H. rewrite orb_false_r in H.
     destruct ((z <? 0) || (1 <? z)) eqn:R; [discriminate|].
     inversion H; subst. eexists _, _. split; [reflexivity|].
     assert (z = 0 \/ z = 1) as [-> | ->] by lia; reflexivity.
   - destruct c as [fl i| |neg]; cbn in H; try discriminate.
-    rewrite (bound_is_inv _ _ _ HB) in H. cbn in H. cbn in Hu.
-    destruct ((fl <? 0) || ((1 <? fl) || (fl =? 1) && negb i)) eqn:R; [discriminate|].
+    rewrite (bound_is_inv _ _ _ HB) in H. cbn in H.
+    destruct i; cbn in H; [|rewrite orb_true_r in H; discriminate]. rewrite orb_false_r in H.
+    destruct ((fl <? 0) || ((1 <? fl) || (fl =? 1) && false)) eqn:R; [discriminate|].
     inversion H; subst. eexists _, _. split; [reflexivity|].
-    unfold trunc.
-    assert (fl = 0 \/ fl = 1) as [-> | ->] by lia.
-    + destruct i; cbn in *; [reflexivity|discriminate].
-    + destruct i; cbn in *; [reflexivity|discriminate].
+    unfold trunc. rewrite andb_false_r.
+    assert (fl = 0 \/ fl = 1) as [-> | ->] by lia; reflexivity.
 Qed.
 
 (* ---- digests ---- *)
@@ -352,13 +371,7 @@ Definition plain (v : pv) : bool := match v with PTyped _ _ => false | _ => true
 Definition scalar_t (t : ftype) : bool := match t with TList _ | TDynamic => false | _ => true end.
 
 Lemma cand_ok_plain t v : plain v = true -> scalar_t t = true ->
-  cand_ok t v = match t with
-                | TUint16 | TUint32 => negb (is_float v)
-                | TBoolean => negb (in_unit_float v)
-                | TDigest => is_container v
-                | TRecord => is_record v
-                | _ => true
-                end.
+  cand_ok t v = match t with TRecord => is_record v | _ => true end.
 Proof. destruct v; try discriminate; destruct t; try discriminate; reflexivity. Qed.
 
 Lemma coerce_base_sound t v s : scalar_t t = true -> plain v = true -> cand_ok t v = true ->
@@ -369,9 +382,9 @@ Proof.
   - (* string *) unfold co_string in H. destruct (str_conv F E v). inversion H. reflexivity.
   - (* uri *) unfold co_uri, co_string in H. destruct (e_uri E v); [|discriminate]. destruct (str_conv F E v). inversion H. reflexivity.
   - (* varint *) unfold bind in H. destruct (int_new E v); [|discriminate]. inversion H. reflexivity.
-  - apply negb_true_iff in Hc. destruct (co_uint_sound _ 65535 _ _ H16 Hc H) as (obj & u & -> & Hu). exact Hu.
-  - apply negb_true_iff in Hc. destruct (co_uint_sound _ 4294967295 _ _ H32 Hc H) as (obj & u & -> & Hu). exact Hu.
-  - apply negb_true_iff in Hc. destruct (co_boolean_sound _ _ Hc H) as (obj & b & -> & ->). cbn. apply Z.eqb_refl.
+  - destruct (co_uint_sound _ 65535 _ _ H16 H) as (obj & -> & Hu). cbn. lia.
+  - destruct (co_uint_sound _ 4294967295 _ _ H32 H) as (obj & -> & Hu). cbn. lia.
+  - destruct (co_boolean_sound _ _ H) as (obj & b & -> & ->). cbn. apply Z.eqb_refl.
   - unfold bind in H. destruct (float_new E v); [|discriminate]. inversion H. reflexivity.
   - unfold co_bytes, bind in H. destruct (bytes_new v); [|discriminate]. rewrite F_bytes in H.
     destruct v; try discriminate. inversion H. reflexivity.
@@ -408,7 +421,33 @@ Qed.
 Lemma flat_plain x : is_flat x = true -> plain x = true.
 Proof. destruct x; try discriminate; reflexivity. Qed.
 
-Lemma coerce_flat_sound e x s : is_flat x = true -> (match e with TDigest | TRecord => false | _ => true end) = true ->
+Lemma coerce_plain_flat_sound e x s : plain x = true -> (match e with TRecord => false | _ => true end) = true ->
+  coerce_flat F E e x = Ok s -> has_type e s = true.
+Proof.
+  intros Hp He H.
+  destruct e; try discriminate He; cbn [coerce_flat] in H; try discriminate H;
+    try (apply (coerce_base_sound _ x); [reflexivity|exact Hp| |exact H]; destruct x; try discriminate Hp; reflexivity).
+  apply (co_dynamic_sound x); assumption.
+Qed.
+
+Lemma lower_plain s v : lower s = Some v -> plain v = true.
+Proof. destruct s; cbn; intros H; inversion H; reflexivity. Qed.
+
+Lemma coerce_cross_sound t orig low s : plain low = true -> ftype_eqb t TRecord = false ->
+  coerce_cross F E t orig low = Ok s -> has_type t s = true.
+Proof.
+  intros Hp Ht H.
+  destruct t; try discriminate Ht; unfold coerce_cross in H;
+    try (refine (coerce_plain_flat_sound _ _ _ Hp _ H); reflexivity).
+  - destruct (is_text_or_bytes low).
+    + unfold co_string in H. destruct (str_conv F E low). inversion H. reflexivity.
+    + destruct (e_str E orig). inversion H. reflexivity.
+  - destruct (is_text_or_bytes low).
+    + unfold co_uri, co_string in H. destruct (e_uri E low); [|discriminate]. destruct (str_conv F E low). inversion H. reflexivity.
+    + destruct (e_uri E low); [|discriminate]. destruct (e_str E orig). inversion H. reflexivity.
+Qed.
+
+Lemma coerce_flat_sound e x s : is_flat x = true -> (match e with TRecord => false | _ => true end) = true ->
   coerce_flat F E e x = Ok s -> has_type e s = true.
 Proof.
   intros Hx He H. pose proof (flat_plain _ Hx) as Hp.
@@ -468,7 +507,7 @@ Ltac scalar_or_dyn t Hc H :=
   try (refine (co_dynamic_sound _ _ _ H); reflexivity).
 
 Lemma flat_items_sound e items ss :
-  (match e with TDigest | TRecord => false | _ => true end) = true ->
+  (match e with TRecord => false | _ => true end) = true ->
   forallb is_flat items = true ->
   Forall2 (fun x s => (if f_tl_convert F then coerce_flat F E e x else Ok (SPass x)) = Ok s) items ss ->
   forallb (has_type e) ss = true.
@@ -529,14 +568,19 @@ Proof.
   - rewrite coerce_plain in Hco by reflexivity. scalar_or_dyn ft Hc Hco. tl_trivial Hco.
   - rewrite coerce_plain in Hco by reflexivity. scalar_or_dyn ft Hc Hco. tl_trivial Hco.
   - (* an instance of a field-type class *)
-    cbn [coerce] in Hco. cbn [cand_ok] in Hc. apply andb_prop in Hc. destruct Hc as [Hc Hr].
-    destruct (instance_of c ft || ftype_eqb ft TDynamic) eqn:Ei; [|discriminate].
-    pose proof (IHv _ _ Hc Hco) as Hty.
-    apply orb_prop in Ei. destruct Ei as [Ei|Ei].
-    + apply (instance_of_has_type _ _ _ Ei Hty).
-    + apply ftype_eqb_eq in Ei. subst ft. cbn.
-      rewrite (has_type_not_raw _ _ Hty); [reflexivity|].
-      intros ->. discriminate.
+    cbn [coerce] in Hco. cbn [cand_ok] in Hc. apply andb_prop in Hc. destruct Hc as [Hc Hnr].
+    apply andb_prop in Hc. destruct Hc as [Hc Hr]. apply negb_true_iff in Hnr.
+    destruct (instance_of c ft || ftype_eqb ft TDynamic) eqn:Ei.
+    + pose proof (IHv _ _ Hc Hco) as Hty.
+      apply orb_prop in Ei. destruct Ei as [Ei|Ei].
+      * apply (instance_of_has_type _ _ _ Ei Hty).
+      * apply ftype_eqb_eq in Ei. subst ft. cbn.
+        rewrite (has_type_not_raw _ _ Hty); [reflexivity|].
+        intros ->. discriminate.
+    + (* an instance of another class: converted from the builtin value it extends *)
+      destruct (coerce F E c v) as [s0|] eqn:E0; [|discriminate].
+      destruct (lower s0) as [low|] eqn:El; [|discriminate].
+      apply (coerce_cross_sound _ _ _ _ (lower_plain _ _ El) Hnr Hco).
 Qed.
 
 (* ---- records ---- *)
@@ -696,15 +740,16 @@ Qed.
 (* ---- the property's rejection list ---- *)
 
 Lemma uint_rejects b max v : bound_is b 0 max = true ->
-  match num_of v with Some n => negb (spec_in_range 0 max n) | None => false end = true ->
+  match num_of v with Some n => negb (spec_in_range 0 max n && num_integral n) | None => false end = true ->
   exists e, co_uint F E b v = Raise e.
 Proof.
-  intros Hb Hu. unfold co_uint.
+  intros Hb Hu. unfold co_uint. rewrite F_uint_int.
   destruct v; cbn in Hu; try discriminate; cbn [int_new bind num_of].
-  - rewrite (out_of_range_spec _ _ _ _ Hb) by discriminate. rewrite Hu. eauto.
-  - rewrite (out_of_range_spec _ _ _ _ Hb) by discriminate. rewrite Hu. eauto.
+  - rewrite (out_of_range_spec _ _ _ _ Hb) by discriminate. cbn [num_integral] in Hu. rewrite andb_true_r in Hu. rewrite Hu. eauto.
+  - rewrite (out_of_range_spec _ _ _ _ Hb) by discriminate. cbn [num_integral] in Hu. rewrite andb_true_r in Hu. rewrite Hu. eauto.
   - destruct c as [fl i| |neg]; cbn [int_new bind]; eauto.
-    rewrite (out_of_range_spec _ _ _ _ Hb) by discriminate. rewrite Hu. eauto.
+    rewrite (out_of_range_spec _ _ _ _ Hb) by discriminate. cbn [num_integral andb] in *.
+    destruct (spec_in_range 0 max (NF (FFinite fl i))); cbn in *; [|eauto]. rewrite Hu. eauto.
 Qed.
 
 Lemma co_bytes_rejects v : plain v = true -> (match v with PBytes _ => false | _ => true end) = true ->
@@ -720,24 +765,23 @@ Lemma boolean_rejects v :
   | Some (NF (FFinite fl i)) => negb (i && ((fl =? 0) || (fl =? 1)))
   | Some (NF _) => true
   | None => false
-  end = true -> negb (in_unit_float v) = true -> exists e, co_boolean F E v = Raise e.
+  end = true -> exists e, co_boolean F E v = Raise e.
 Proof.
-  intros Hu Hr. unfold co_boolean.
+  intros Hu. unfold co_boolean. rewrite F_bool_int.
   destruct v; cbn in Hu; try discriminate; cbn [int_new bind num_of].
   - destruct b; discriminate.
   - rewrite (bound_is_inv _ _ _ HB). cbn.
-    destruct ((z <? 0) || (1 <? z)) eqn:R; [eauto|]. exfalso. lia.
+    destruct ((z <? 0) || (1 <? z)) eqn:R; cbn; [eauto|]. exfalso. lia.
   - destruct c as [fl i| |neg]; cbn [int_new bind]; eauto.
-    rewrite (bound_is_inv _ _ _ HB). cbn. cbn in Hr.
-    destruct ((fl <? 0) || ((1 <? fl) || (fl =? 1) && negb i)) eqn:R; [eauto|]. exfalso.
-    destruct i; cbn in *; lia.
+    rewrite (bound_is_inv _ _ _ HB). cbn.
+    destruct i; cbn in *; [|rewrite orb_true_r; eauto]. rewrite orb_false_r.
+    destruct ((fl <? 0) || ((1 <? fl) || (fl =? 1) && false)) eqn:R; cbn; [eauto|]. exfalso. lia.
 Qed.
 
-Lemma digest_rejects v : negb (digest_wellformed v) = true -> is_container v = true ->
-  exists e, co_digest F v = Raise e.
+Lemma digest_rejects v : plain v = true -> negb (digest_wellformed v) = true -> exists e, co_digest F v = Raise e.
 Proof.
-  intros Hu Hc. apply negb_true_iff in Hu. unfold co_digest.
-  destruct v; try discriminate Hc; cbn in Hu.
+  intros Hp Hu. apply negb_true_iff in Hu. unfold co_digest. rewrite F_digest_else.
+  destruct v; try discriminate Hp; try discriminate Hu; cbn in Hu; eauto.
   - destruct l as [|a [|b [|c [|]]]]; eauto. apply digest3_bad. exact Hu.
   - destruct l as [|a [|b [|c [|]]]]; eauto. apply digest3_bad. exact Hu.
   - apply digest3_bad. exact Hu.
@@ -762,8 +806,8 @@ Qed.
 Lemma unrep_plain t v : plain v = true ->
   unrepresentable E t v =
   match t with
-  | TUint16 => match num_of v with Some n => negb (spec_in_range 0 65535 n) | None => false end
-  | TUint32 => match num_of v with Some n => negb (spec_in_range 0 4294967295 n) | None => false end
+  | TUint16 => match num_of v with Some n => negb (spec_in_range 0 65535 n && num_integral n) | None => false end
+  | TUint32 => match num_of v with Some n => negb (spec_in_range 0 4294967295 n && num_integral n) | None => false end
   | TBoolean =>
       match num_of v with
       | Some (NZ z) => negb ((z =? 0) || (z =? 1))
@@ -786,67 +830,57 @@ Lemma unrep_plain t v : plain v = true ->
   end.
 Proof. destruct v; try discriminate; reflexivity. Qed.
 
-Lemma reject_hyp_plain t v : plain v = true ->
-  reject_hyp t v =
-  match t with
-  | TBoolean => negb (in_unit_float v)
-  | TDigest => is_container v
-  | TList e => match v with PList l | PTuple l => forallb (reject_hyp e) l | _ => true end
-  | _ => true
-  end.
-Proof. destruct v; try discriminate; reflexivity. Qed.
-
 Lemma rejects_scalar t v : plain v = true -> scalar_t t = true ->
-  unrepresentable E t v = true -> reject_hyp t v = true -> exists e, coerce_base F E t v = Raise e.
+  unrepresentable E t v = true -> exists e, coerce_base F E t v = Raise e.
 Proof.
-  intros Hp Hs Hu Hr. rewrite (unrep_plain _ _ Hp) in Hu. rewrite (reject_hyp_plain _ _ Hp) in Hr.
+  intros Hp Hs Hu. rewrite (unrep_plain _ _ Hp) in Hu.
   destruct t; try discriminate Hu; try discriminate Hs; cbn [coerce_base].
   - apply (uint_rejects _ 65535 _ H16 Hu).
   - apply (uint_rejects _ 4294967295 _ H32 Hu).
-  - apply (boolean_rejects _ Hu Hr).
+  - apply (boolean_rejects _ Hu).
   - apply (co_bytes_rejects _ Hp Hu).
-  - apply (digest_rejects _ Hu Hr).
+  - apply (digest_rejects _ Hp Hu).
   - apply (ip_rejects _ Hu).
   - unfold co_ipnetwork. destruct (e_net E v); [discriminate Hu|eauto].
 Qed.
 
 Lemma rejects_seq e l :
-  Forall (fun x => forall t, unrepresentable E t x = true -> reject_hyp t x = true -> exists e, coerce F E t x = Raise e) l ->
-  existsb (unrepresentable E e) l = true -> forallb (reject_hyp e) l = true ->
+  Forall (fun x => forall t, unrepresentable E t x = true -> exists e, coerce F E t x = Raise e) l ->
+  existsb (unrepresentable E e) l = true ->
   exists e1, (if f_tl_falsy_empty F && (match l with [] => true | _ => false end) then Ok (SList [])
               else bind (map_res (fun x => if f_tl_convert F then coerce F E e x else Ok (SPass x)) l)
                         (fun ss => Ok (SList ss))) = Raise e1.
 Proof.
-  intros HI Hu Hr. apply existsb_exists in Hu. destruct Hu as (x & Hin & Hx).
-  rewrite forallb_forall in Hr. rewrite Forall_forall in HI.
-  destruct (HI x Hin _ Hx (Hr x Hin)) as [e0 He].
+  intros HI Hu. apply existsb_exists in Hu. destruct Hu as (x & Hin & Hx).
+  rewrite Forall_forall in HI.
+  destruct (HI x Hin _ Hx) as [e0 He].
   destruct l as [|y l]; [destruct Hin|]. rewrite andb_false_r. rewrite F_tl. unfold bind.
   destruct (map_res_raises (fun x => coerce F E e x) (y :: l) x e0 Hin He) as [e' ->]. eauto.
 Qed.
 
-Ltac rej_plain ft Hu Hr :=
+Ltac rej_plain ft Hu :=
   rewrite coerce_plain by reflexivity;
   destruct ft;
-  try (refine (rejects_scalar _ _ _ _ Hu Hr); reflexivity);
+  try (refine (rejects_scalar _ _ _ _ Hu); reflexivity);
   try (cbn in Hu; discriminate Hu).
 
-Theorem rejects_unrepresentable : forall v ft, unrepresentable E ft v = true -> reject_hyp ft v = true ->
-  exists e, coerce F E ft v = Raise e.
+(* FULL statement: no hypothesis beyond "the property calls the value unrepresentable" *)
+Theorem rejects_unrepresentable : forall v ft, unrepresentable E ft v = true -> exists e, coerce F E ft v = Raise e.
 Proof.
-  induction v using pv_ind2; intros ft Hu Hr.
-  - rej_plain ft Hu Hr.
-  - rej_plain ft Hu Hr.
-  - rej_plain ft Hu Hr.
-  - rej_plain ft Hu Hr.
-  - rej_plain ft Hu Hr.
-  - rej_plain ft Hu Hr.
-  - rej_plain ft Hu Hr. cbn in Hu, Hr. apply (rejects_seq _ _ H Hu Hr).
-  - rej_plain ft Hu Hr. cbn in Hu, Hr. apply (rejects_seq _ _ H Hu Hr).
-  - rej_plain ft Hu Hr.
-  - rej_plain ft Hu Hr.
-  - rej_plain ft Hu Hr.
-  - rej_plain ft Hu Hr.
-  - rej_plain ft Hu Hr.
+  induction v using pv_ind2; intros ft Hu.
+  - rej_plain ft Hu.
+  - rej_plain ft Hu.
+  - rej_plain ft Hu.
+  - rej_plain ft Hu.
+  - rej_plain ft Hu.
+  - rej_plain ft Hu.
+  - rej_plain ft Hu. cbn in Hu. apply (rejects_seq _ _ H Hu).
+  - rej_plain ft Hu. cbn in Hu. apply (rejects_seq _ _ H Hu).
+  - rej_plain ft Hu.
+  - rej_plain ft Hu.
+  - rej_plain ft Hu.
+  - rej_plain ft Hu.
+  - rej_plain ft Hu.
   - cbn in Hu. discriminate Hu.
 Qed.
 
@@ -862,13 +896,13 @@ Proof. apply (co_uint_int _ 4294967295 z H32). Qed.
 
 Lemma coerce_boolean_bool b : coerce F E TBoolean (PBool b) = Ok (SBool (Z_of_bool b) b).
 Proof.
-  cbn. unfold co_boolean. cbn. rewrite (bound_is_inv _ _ _ HB). destruct b; reflexivity.
+  cbn. unfold co_boolean. cbn. rewrite (bound_is_inv _ _ _ HB), andb_false_r. destruct b; reflexivity.
 Qed.
 
 Lemma coerce_boolean_int z : coerce F E TBoolean (PInt z) =
   if (z =? 0) || (z =? 1) then Ok (SBool z (z =? 1)) else Raise EValueError.
 Proof.
-  cbn. unfold co_boolean. cbn. rewrite (bound_is_inv _ _ _ HB). cbn.
+  cbn. unfold co_boolean. cbn. rewrite (bound_is_inv _ _ _ HB). cbn. rewrite andb_false_r, orb_false_r.
   destruct ((z <? 0) || (1 <? z)) eqn:R.
   - assert ((z =? 0) || (z =? 1) = false) as -> by lia. reflexivity.
   - assert (z = 0 \/ z = 1) as [-> | ->] by lia; reflexivity.
@@ -924,21 +958,28 @@ Proof. intros H0 H1. rewrite coerce_boolean_int. destruct ((z =? 0) || (z =? 1))
 Lemma non_bytes_rejected v : plain v = true -> (forall b, v <> PBytes b) -> exists e, coerce F E TBytes v = Raise e.
 Proof.
   intros Hp Hv. apply rejects_unrepresentable.
-  - rewrite (unrep_plain _ _ Hp). destruct v; try reflexivity. exfalso. apply (Hv b). reflexivity.
-  - rewrite (reject_hyp_plain _ _ Hp). reflexivity.
+  rewrite (unrep_plain _ _ Hp). destruct v; try reflexivity. exfalso. apply (Hv b). reflexivity.
 Qed.
 
-Lemma malformed_digest_rejected v : is_container v = true -> digest_wellformed v = false ->
+(* every value that is not an instance of the digest class, not None and not a well-formed tuple / list / dict *)
+Lemma malformed_digest_rejected v : plain v = true -> digest_wellformed v = false ->
   exists e, coerce F E TDigest v = Raise e.
 Proof.
-  intros Hc Hw. assert (Hp : plain v = true) by (destruct v; try discriminate Hc; reflexivity).
-  apply rejects_unrepresentable.
-  - rewrite (unrep_plain _ _ Hp), Hw. reflexivity.
-  - rewrite (reject_hyp_plain _ _ Hp). exact Hc.
+  intros Hp Hw. apply rejects_unrepresentable. rewrite (unrep_plain _ _ Hp), Hw. reflexivity.
 Qed.
 
+(* every non-integral float is rejected by the unsigned types, every float other than 0.0 / 1.0 by boolean *)
+Lemma uint_fraction_rejected bits fl : exists e, coerce F E TUint16 (PFloat bits (FFinite fl false)) = Raise e.
+Proof. apply rejects_unrepresentable. cbn. rewrite andb_false_r. reflexivity. Qed.
+
+Lemma uint32_fraction_rejected bits fl : exists e, coerce F E TUint32 (PFloat bits (FFinite fl false)) = Raise e.
+Proof. apply rejects_unrepresentable. cbn. rewrite andb_false_r. reflexivity. Qed.
+
+Lemma boolean_fraction_rejected bits fl : exists e, coerce F E TBoolean (PFloat bits (FFinite fl false)) = Raise e.
+Proof. apply rejects_unrepresentable. reflexivity. Qed.
+
 Lemma address_out_of_range z : z < 0 \/ z >= 2 ^ 128 -> exists e, coerce F E TIpAddress (PInt z) = Raise e.
-Proof. intros H. apply rejects_unrepresentable; [cbn; lia|reflexivity]. Qed.
+Proof. intros H. apply rejects_unrepresentable. cbn. lia. Qed.
 
 Lemma accepts_representable :
   (forall z, 0 <= z <= 65535 -> coerce F E TUint16 (PInt z) = Ok (SUInt z (UInt z)))
